@@ -79,8 +79,8 @@ def the_record():
         from flow.record import RecordDescriptor
 
         d = RecordDescriptor("c09/rec", [("string", "s"), ("varint", "n"), ("stringlist", "sl"), ("record", "c"),
-                                         ("record[]", "cs"), ("uri", "u")])
-        _REC = d("aBc", 3, ["X", "y"], Canary("c"), [Canary("cs0")], "http://h/p", _generated=GEN)
+                                         ("record[]", "cs"), ("uri", "u"), ("string", "dn")])
+        _REC = d("aBc", 3, ["X", "y"], Canary("c"), [Canary("cs0")], "http://h/p", "__class__", _generated=GEN)
     return _REC
 
 
@@ -181,6 +181,23 @@ def targets(meth):
         ("attr-of-namespace-object", "Type.%s(r.c)" % meth),
         ("attr-of-namespace-object", "r.%s()" % meth),
         ("keyword-arg-target", "r.c.%s(x=1)" % meth),
+        # call targets spelled with syntax the language does not have today (subscripts, conditional expressions,
+        # comprehensions other than generators, walrus): if a release starts to evaluate them, the call gate applies
+        ("target:Subscript", "r.c['%s']()" % meth),
+        ("target:Subscript", "[r.c.%s][0]()" % meth),
+        ("target:Subscript", "{'k': r.c.%s}['k']()" % meth),
+        ("target:Subscript", "r.cs[0].%s()" % meth),
+        ("target:IfExp", "(r.c.%s if True else r.c.%s)()" % (meth, meth)),
+        ("target:BoolOp", "(r.c.%s or r.c.%s)()" % (meth, meth)),
+        ("target:NamedExpr", "(q := r.c.%s)()" % meth),
+        ("comprehension-var-call", "[f() for f in [r.c.%s]] == []" % meth),
+        ("comprehension-var-call", "{f() for f in [r.c.%s]} == 1" % meth),
+        ("comprehension-var-call", "{1: f() for f in [r.c.%s]} == 1" % meth),
+        ("comprehension-var-call", "any([f() for f in [r.c.%s]])" % meth),
+        ("comprehension-var-call", "any([%s() for %s in [r.c.m]])" % (meth, meth)),
+        ("comprehension-var-call", "any(f() for f in [q for q in [r.c.%s]])" % meth),
+        ("conditional-call", "(r.c.%s() if True else 1) == 1" % meth),
+        ("conditional-call", "(1 if r.c.%s() else 2) == 1" % meth),
     ]
 
 
@@ -231,6 +248,17 @@ DUNDERS = [
     # every double-underscore attribute, not only the __dunder__ form
     "r.__secret", "r.c.__private", "r.c.a.__x", "r.s.__len", "Type.__foo", "r.__slots", "r.c.__dict", "r.__x_",
     "str(r).__x", "r.c.__", "r.c.___",
+    # the same reads spelled without an Attribute node, or with the name computed at run time (r.dn holds the text
+    # '__class__'): if the language ever grows subscripts, conditionals, f-strings or other comprehensions, a
+    # double-underscore name still must not be readable through them
+    "r['__class__']", "r['__cla' + 'ss__']", "r[r.dn]", "r[lower('__CLASS__')]", "r[str('__dict__')]",
+    "any(r[k] != None for k in ['__class__'])", "any(r[k] for k in [r.dn])", "r.c['__class__']", "r.c[r.dn]",
+    "r.s['__class__']", "r['_desc']['__init__']", "str(r[r.dn])", "lower(r['__class__'])", "r.sl[r.__class__:]",
+    "(r.__class__ if True else 1)", "(1 if r.__class__ else 2)", "(1 if True else r.__class__)",
+    "f'{r.__class__}'", "f'{r.c.__dict__}'", "f'{r.s:{r.__class__}}'", "f'{r.dn.__len__}'",
+    "[x.__class__ for x in [r]]", "[x for x in [r.__class__]]", "{x.__class__ for x in [r]}", "{1: x.__class__ for x in [r]}",
+    "{'a': r.__class__}", "{r.__class__}", "[*r.__class__]", "(y := r.__class__)", "(lambda: r.__class__)",
+    "(lambda q: q.__class__)", "[r.__class__][0]", "any([x.__class__ for x in [r]])",
 ]
 
 CONTEXTS = [
